@@ -57,4 +57,61 @@ theorem ecdhDerive_never_panics (k remote : Key) (cur : Option (List Int)) :
 #guard (ecdh p256 7 ((match scalarBaseMult p256 11 with | .affine x _ => x | .inf => 0)) ((match scalarBaseMult p256 11 with | .affine _ y => y | .inf => 0)))
     == (ecdh p256 11 ((match scalarBaseMult p256 7 with | .affine x _ => x | .inf => 0)) ((match scalarBaseMult p256 7 with | .affine _ y => y | .inf => 0)))
 
+/-! ### which remote keys are refused, stated outright -/
+
+/-- **an X25519 remote key must be exactly 32 octets**: shorter (truncated, stripped) or longer strings are refused,
+    never padded or cut -/
+theorem x25519_remote_wrong_length_refused (pk : Key) (crv : Int) (info : Nat) (x : Bytes)
+    (hc : getInt (pk.lookup (lbl Iana.EC2KeyParameterCrv)) = .ok crv) (hx25519 : ecdhCurve crv = some (EcdhCurve.x25519, info))
+    (hx : getB pk Iana.EC2KeyParameterX = some x) (hl : x.length ≠ 32) :
+    ecdhRemote pk = .err "x-size" := by
+  unfold ecdhRemote
+  simp only [hc, hx25519, hx, Option.getD_some]
+  have : (x.length == 32) = false := by simpa using hl
+  simp [this]
+
+/-- … and a 32-octet one is taken verbatim -/
+theorem x25519_remote_verbatim (pk : Key) (crv : Int) (info : Nat) (x : Bytes)
+    (hc : getInt (pk.lookup (lbl Iana.EC2KeyParameterCrv)) = .ok crv) (hx25519 : ecdhCurve crv = some (EcdhCurve.x25519, info))
+    (hx : getB pk Iana.EC2KeyParameterX = some x) (hl : x.length = 32) :
+    ecdhRemote pk = .ok (.x25519 x) := by
+  unfold ecdhRemote
+  simp only [hc, hx25519, hx, Option.getD_some, hl, BEq.rfl, if_true]
+
+/-- **an uncompressed remote point off the curve is refused** -/
+theorem off_curve_remote_refused (pk : Key) (crv : Int) (cv : Curve) (info : Nat) (x y : Bytes)
+    (hc : getInt (pk.lookup (lbl Iana.EC2KeyParameterCrv)) = .ok crv) (hn : ecdhCurve crv = some (EcdhCurve.nist cv, info))
+    (hx : getB pk Iana.EC2KeyParameterX = some x) (hy : getB pk Iana.EC2KeyParameterY = some y)
+    (hoff : isOnCurve cv (os2ip x) (os2ip y) = false) :
+    ecdhRemote pk = .err "not-on-curve" := by
+  unfold ecdhRemote
+  simp only [hc, hn, hx, hy, Option.getD_some, hoff, Bool.false_eq_true, if_false]
+
+/-- **encoding independence of an uncompressed remote key**: two keys on the same curve whose coordinates are the same
+    integers (fixed-length, stripped or over-padded octet strings) are the same remote point -/
+theorem uncompressed_remote_encoding_independent (pk pk' : Key) (crv : Int) (cv : Curve) (info : Nat) (x y x' y' : Bytes)
+    (hc : getInt (pk.lookup (lbl Iana.EC2KeyParameterCrv)) = .ok crv)
+    (hc' : getInt (pk'.lookup (lbl Iana.EC2KeyParameterCrv)) = .ok crv)
+    (hn : ecdhCurve crv = some (EcdhCurve.nist cv, info))
+    (hx : getB pk Iana.EC2KeyParameterX = some x) (hy : getB pk Iana.EC2KeyParameterY = some y)
+    (hx' : getB pk' Iana.EC2KeyParameterX = some x') (hy' : getB pk' Iana.EC2KeyParameterY = some y')
+    (ex : os2ip x' = os2ip x) (ey : os2ip y' = os2ip y) :
+    ecdhRemote pk' = ecdhRemote pk := by
+  unfold ecdhRemote
+  simp only [hc, hc', hn, hx, hy, hx', hy', Option.getD_some, ex, ey]
+
+/-- **a remote point on another curve is refused** by a NIST-curve ECDHer, and an X25519 key by a NIST one and vice versa -/
+theorem other_curve_remote_refused (k remote : Key) (cur : Option (List Int)) (rp : RemotePoint)
+    (hr : ecdhRemote remote = .ok rp) (crv : Int) (c : EcdhCurve) (info : Nat)
+    (hk : getInt (k.lookup (lbl Iana.EC2KeyParameterCrv)) = .ok crv) (hcv : ecdhCurve crv = some (c, info))
+    (hmis : match rp, c with
+      | RemotePoint.x25519 _, EcdhCurve.x25519 => False
+      | RemotePoint.nist rc _ _, EcdhCurve.nist cv => rc.p ≠ cv.p
+      | _, _ => True) :
+    (ecdhDerive k cur remote).isOk = false := by
+  unfold ecdhDerive
+  simp only [hk, hcv, hr]
+  cases rp <;> cases c <;> simp only at hmis <;>
+    repeat' (first | split | rfl | (rename_i hq; simp_all) )
+
 end Cose.Props.C14
